@@ -16,6 +16,7 @@ sys.path.insert(0, os.path.dirname(os.path.dirname(os.path.abspath(__file__))))
 import z3  # noqa: E402
 
 from checks.c03 import PANIC_SET, BYTES_LENGTHS, Case  # noqa: E402
+from evm import artifact as A  # noqa: E402
 from hsim import runsim as R  # noqa: E402
 from hsim.runsim import reference_refine  # noqa: E402
 
@@ -86,8 +87,8 @@ class QueryMonitor:
 
         def to_smt2(path, args):
             q = mon._orig(path, args)
-            mon.records.append((q.smtlib, list(path.conditions), list(q.assertions), bool(args.cache_solver),
-                                path.sliced is not None))
+            mon.records.append([q.smtlib, list(path.conditions), list(q.assertions), bool(args.cache_solver),
+                                path.sliced is not None, False])
             return q
 
         sevm.Path.to_smt2 = to_smt2
@@ -140,12 +141,22 @@ class QueryMonitor:
             elif eq is None:
                 self.probe("equiv_unknown")
             return
-        rec = next((r for r in reversed(self.records) if r[0] and r[0] in text), None)
-        if rec is None:
+        matching = [r for r in self.records if r[0] and r[0] in text]
+        if not matching:
             self.probe("query_without_snapshot")
             return
+        # every query halmos builds is handed to the solver at most once: a text that only matches queries already consumed
+        # was built for an earlier path (a stale file the solver was pointed at), not for the path being solved now
+        rec = next((r for r in matching if not r[5]), None)
+        if rec is None:
+            self.violations.append(dict(oracle="C11:query-not-equivalent", disc="stale-file",
+                                        detail=f"{info['file']}: the text the solver reads was built for an earlier path (it matches "
+                                               f"{len(matching)} earlier quer{'y' if len(matching) == 1 else 'ies'}, all solved already); "
+                                               f"the query built for the current path was never written"))
+            return
+        rec[5] = True
         self.by_file[info["file"]] = text
-        smtlib, conds, ids, cache, sliced = rec
+        smtlib, conds, ids, cache, sliced = rec[:5]
         self.probe("queries_judged")
         self.probe("queries_extending_sliced_state" if not sliced else "queries_of_sliced_path")
         got = parse(text)
@@ -206,8 +217,14 @@ class C11Check:
         unknown_rate = ch.choose([0.0, 0.0, 0.3], "sw.unk")
         case = Case(ch)
         rt, cj, bom = case.build()
-        args = R.make_args(solver_threads=threads, cache_solver=cache, storage_layout=layout,
-                           panic_error_codes=set(PANIC_SET), default_bytes_lengths=list(BYTES_LENGTHS))
+        # optionally a second contract with a test of the same name, both dumping into one --dump-smt-directory
+        shared_dump = ch.chance(0.25, "sw.shareddump")
+        case2 = None
+        if shared_dump:
+            case2 = Case(ch, name=case.sig.split("(")[0])
+            rt2, cj2, _ = case2.build()
+            cj2 = A.contract_json("U", "test/U.sol", rt2, cj2["abi"], ast_id=7)
+            bom = A.build_out_map([("T.sol", "T", cj), ("U.sol", "U", cj2)])
         mon = QueryMonitor()
 
         class Stub(R.SolverStub):
@@ -215,8 +232,17 @@ class C11Check:
                 mon.on_query(info, text)
 
         def main():
+            import tempfile
+
+            extra = {"dump_smt_directory": tempfile.mkdtemp(prefix="c11dump-")} if shared_dump else {}
+            args = R.make_args(solver_threads=threads, cache_solver=cache, storage_layout=layout,
+                               panic_error_codes=set(PANIC_SET), default_bytes_lengths=list(BYTES_LENGTHS), **extra)
             ctx = R.make_contract_ctx(args, "T", "test/T.sol", cj, [case.sig], bom)
-            return hm.run_contract(ctx)
+            res = hm.run_contract(ctx)
+            if shared_dump:
+                ctx2 = R.make_contract_ctx(args, "U", "test/U.sol", cj2, [case2.sig], bom)
+                hm.run_contract(ctx2)
+            return res
 
         mon.install()
         try:
